@@ -629,6 +629,131 @@ def oracle_hap_channel(ctx, rng):
                          "a strict prefix of the plaintext by whole frames", "corrupted HAP channel stream delivered altered plaintext (or skipped a frame)")
 
 
+def oracle_http_over_hap(ctx, rng):
+    """The AirPlay control channel: HttpConnection with HAPSession installed as
+    receive/send processor exactly as verify_connection does.  A pending request must get
+    exactly the response the peer sealed; injected plaintext or corrupted ciphertext must
+    never reach the caller as a response."""
+    from pyatv.auth.hap_session import HAPSession
+    from pyatv.support.http import HttpConnection
+    from harness.core import vloop
+    from harness.core.prng import split_at
+
+    def build(code, body):
+        return (f"HTTP/1.1 {code} OK\r\nContent-Length: {len(body)}\r\nServer: x\r\n\r\n").encode() + body
+
+    async def one(kind, cuts_n):
+        conn = HttpConnection()
+        conn.transport = FakeTransport()
+        sess = HAPSession()
+        sess.enable(KEY_OUT, KEY_IN)
+        conn.receive_processor = sess.decrypt
+        conn.send_processor = sess.encrypt
+        body = pattern(rng, rng.choice([0, 10, 1500, 24000]))
+        genuine = build(200, body)
+        wire, _ = peer_hap_encrypt(KEY_IN, genuine)
+        # large enough that the bogus "length prefix" (the first two plaintext bytes) is
+        # covered and a tag check is actually attempted on the injected bytes
+        forged_body = b"FORGED" + pattern(rng, rng.choice([40, 24000, 70000]))
+        if kind == "clean":
+            stream = wire
+        elif kind == "plaintext-injected":
+            stream = build(200, forged_body)            # never sealed by the peer
+        elif kind == "corrupt":
+            pos = rng.randrange(len(wire))
+            stream = wire[:pos] + bytes([wire[pos] ^ (1 << rng.randrange(8))]) + wire[pos + 1:]
+        else:  # plaintext appended after a corrupted frame
+            pos = rng.randrange(min(len(wire), 1000))
+            stream = wire[:pos] + bytes([wire[pos] ^ 0x40]) + wire[pos + 1:] + build(200, forged_body)
+        task = asyncio.ensure_future(conn.send_and_receive("GET", "/info", timeout=5))
+        await asyncio.sleep(0)
+        for chunk in split_at(stream, rng.cuts(len(stream), cuts_n)):
+            try:
+                conn.data_received(chunk)
+            except Exception:  # noqa: BLE001
+                conn.connection_lost(None)   # asyncio closes the transport
+                break
+        try:
+            resp = await task
+            got = resp.body if isinstance(resp.body, bytes) else str(resp.body).encode()
+            return ("response", got, body)
+        except Exception as e:  # noqa: BLE001
+            return ("error:" + type(e).__name__, b"", body)
+
+    plan = [("clean", n) for n in (0, 1, 3)] + \
+           [(k, n) for k in ("plaintext-injected", "corrupt", "corrupt+plaintext") for n in (0, 2)] * ctx.scale(4, 30)
+    for kind, n in plan:
+        outcome, got, body = vloop.run(one, kind, n)
+        ctx.case(["http-over-hap", kind, n, outcome], kind != "clean")
+        if kind == "clean":
+            if outcome != "response" or got != body:
+                ctx.fail("http-hap:roundtrip", {"kind": kind, "cuts": n}, outcome, "the sealed response", "control channel did not deliver the genuine response")
+        elif outcome == "response" and not (kind == "corrupt" and got == body):
+            ctx.fail("http-hap:unauthenticated-data-delivered", {"kind": kind, "cuts": n}, "caller received %d bytes" % len(got),
+                     "an error, never a response that was not sealed by the peer",
+                     "data that failed (or never had) authentication reached the HTTP caller as a response")
+
+
+def oracle_ap2_channel_keys(ctx, rng):
+    """Key set-up of the AirPlay 2 event/data channels (AP2Session): every data channel
+    must get its own key pair (fresh seed in the salt, the same seed announced to the
+    receiver) - two channels with equal keys restart their counters under one key."""
+    from pyatv.protocols.airplay import ap2_session
+    from harness.core import vloop
+
+    derived, announced = [], []
+
+    class Verifier:
+        def encryption_keys(self, salt, out_info, in_info):
+            import hashlib
+
+            ko = hashlib.sha256(("o|" + salt + "|" + out_info).encode()).digest()
+            ki = hashlib.sha256(("i|" + salt + "|" + in_info).encode()).digest()
+            derived.append((salt, ko, ki))
+            return ko, ki
+
+    async def fake_setup_channel(factory, verifier, address, port, salt, out_info, in_info):
+        ko, ki = verifier.encryption_keys(salt, out_info, in_info)
+        proto = factory(ko, ki)
+        return FakeTransport(), proto
+
+    async def scenario(n_sessions, n_channels):
+        orig = ap2_session.setup_channel
+        ap2_session.setup_channel = fake_setup_channel
+        try:
+            for _ in range(n_sessions):
+                sess = ap2_session.AP2Session("127.0.0.1", 7000, None, None)
+                sess.verifier = Verifier()
+
+                async def _setup(body, _s=sess):
+                    for st in body.get("streams", []):
+                        announced.append(st.get("seed"))
+                    return {"eventPort": 1, "streams": [{"dataPort": 2}]}
+
+                sess._setup = _setup
+                for _ in range(n_channels):
+                    await sess._setup_data_channel("127.0.0.1")
+        finally:
+            ap2_session.setup_channel = orig
+
+    for n_sessions, n_channels in [(1, 1), (1, 2), (1, 3), (2, 2)] + [(rng.randrange(1, 3), rng.randrange(1, 4)) for _ in range(ctx.scale(3, 20))]:
+        del derived[:], announced[:]
+        try:
+            vloop.run(scenario, n_sessions, n_channels)
+        except Exception as e:  # noqa: BLE001
+            ctx.fail("ap2-keys:setup-raises", {"sessions": n_sessions, "channels": n_channels}, type(e).__name__, "channels set up", "data channel set-up raised")
+            continue
+        ctx.case(["ap2-keys", n_sessions, n_channels], n_channels > 1)
+        keys = [(ko, ki) for (_s, ko, ki) in derived]
+        if len(set(keys)) != len(keys):
+            ctx.fail("ap2-keys:data-channels-share-keys", {"sessions": n_sessions, "channels": n_channels}, "two data channels derived identical keys",
+                     "a fresh key pair per data channel", "two data channels under one key restart their nonce counters at 0 (nonce reuse)")
+        for (salt, _ko, _ki), seed in zip(derived, announced):
+            if not salt.endswith(str(seed)):
+                ctx.fail("ap2-keys:seed-mismatch", {"salt": salt[-24:], "announced": seed}, "salt does not carry the announced seed",
+                         "salt = DataStream-Salt + announced seed", "receiver and client would derive different keys")
+
+
 def oracle_companion(ctx, rng):
     from cryptography.hazmat.primitives.ciphers.aead import ChaCha20Poly1305
     from pyatv.protocols.companion.connection import CompanionConnection, FrameType
@@ -642,13 +767,20 @@ def oracle_companion(ctx, rng):
     peer = ChaCha20Poly1305(KEY_OUT)
     counter = 0
     sent = []
-    for n in [1, 2, 100, 1024, 4000, 65535] + [rng.randrange(1, 2000) for _ in range(ctx.scale(20, 200))]:
+    for n in [1, 0, 2, 100, 0, 0, 1024, 4000, 65535] + [rng.choice([0, rng.randrange(1, 2000)]) for _ in range(ctx.scale(20, 200))]:
         data = pattern(rng, n)
         del tr.writes[:]
-        conn.send(FrameType.E_OPACK, data)
+        conn.send(FrameType.E_OPACK if n else FrameType.NoOp, data)
         w = b"".join(tr.writes)
         header, body = w[:4], w[4:]
         ctx.case(["comp-oracle-send", n, counter], True)
+        if n == 0:
+            # an empty frame is not sealed by the wire format: header only, counter untouched
+            if w != bytes([FrameType.NoOp.value, 0, 0, 0]):
+                ctx.fail("companion:empty-frame-wire", {"counter": counter}, w.hex(), "4-byte header with length 0 and nothing else",
+                         "empty Companion frame is not written as a bare header (the peer mis-frames what follows)")
+            sent.append(w)
+            continue
         if int.from_bytes(header[1:], "big") != len(body) or len(body) != n + 16:
             ctx.fail("companion:length-field", {"len": n}, header.hex(), "payload+tag", "Companion length field does not cover ciphertext+tag")
         try:
@@ -899,6 +1031,8 @@ def run(ctx):
 
     oracle_hap(ctx, rng.fork("oracle-hap"))
     oracle_hap_channel(ctx, rng.fork("oracle-hap-channel"))
+    oracle_http_over_hap(ctx, rng.fork("oracle-http-hap"))
+    oracle_ap2_channel_keys(ctx, rng.fork("oracle-ap2-keys"))
     oracle_companion(ctx, rng.fork("oracle-comp"))
     oracle_mrp(ctx, rng.fork("oracle-mrp"))
     oracle_mrp_send(ctx, rng.fork("oracle-mrp-send"))
